@@ -128,7 +128,7 @@ def run_real(sc, chooser, max_steps=6000, settle=None, extra=None, live=False):
             def poster(i):
                 for j, (k, sg) in enumerate(sc.progs[i]):
                     e = Event(signal="E%d" % sg, payload=1000 * i + j)
-                    (ao.post_fifo if k == "F" else ao.post_lifo)(e)
+                    charts.plain_post(ao, k, e, 3 * i + j)
             for i in range(len(sc.progs)):
                 sched.spawn(poster, (i,), name="P%d" % i)
             if extra is not None:
@@ -432,6 +432,68 @@ def explore_fabric_stop(run, n):
             run.disagree("posters / consumer / fabric stop under the same schedule (family ldfab)", cj, diff, None)
 
 
+def explore_first_use(run, focus, n):
+    """oracle-only: the very first use of a fresh active object's queue by several threads at once - the consumer's first wait and
+    the first posts - with every bytecode of LockingDeque a scheduling point and NOTHING of the object touched beforehand by the
+    harness: every post returns, every event is handled exactly once, the system comes to rest with an empty queue"""
+    import small_corr
+    rng = run.rng
+    for _ in range(n):
+        progs = [[rng.choice("FFL") for _ in range(rng.randint(1, 2))] for _ in range(rng.randint(1, 3))]
+        seed = rng.randrange(1 << 30)
+        r2 = random.Random(seed)
+        base = dsched.pct_chooser(r2, depth=r2.randint(1, 4), est_len=400) if r2.random() < 0.6 else dsched.random_chooser(r2)
+        res = {}
+        handled = []
+        with dsched.Installed():
+            sched = dsched.Sched(fair_suffix(base, 3000), max_steps=12000)
+            dsched.Sched.current = sched
+            sched.tracer = dsched.trace_opcodes(small_corr.class_codes(mao.LockingDeque))
+            try:
+                def s1(chart, e):
+                    if e.signal_name == "E1":
+                        handled.append(e.payload)
+                        return return_status.HANDLED
+                    if e.signal in (signals.ENTRY_SIGNAL, signals.INIT_SIGNAL, signals.EXIT_SIGNAL):
+                        return return_status.HANDLED
+                    chart.temp.fun = chart.top
+                    return return_status.SUPER
+
+                def starter():
+                    ao = mao.ActiveObject(name="C")
+                    res["ao"] = ao
+                    ao.start_at(s1)
+                    for i in range(len(progs)):
+                        sched.spawn(poster, (ao, i), name="P%d" % i)
+
+                def poster(ao, i):
+                    for j, kd in enumerate(progs[i]):
+                        e = Event(signal="E1", payload=1000 * i + j)
+                        (ao.post_fifo if kd == "F" else ao.post_lifo)(e)
+                sched.spawn(starter, (), name="K0")
+                res["outcome"] = sched.run()
+                res["finished"] = {t.name: t.finished for t in sched.threads}
+                res["errors"] = ["%s: %s: %s" % (t.name, type(t.error).__name__, t.error) for t in sched.threads if t.error is not None]
+                ao = res.get("ao")
+                res["pending"] = len(ao.queue) if ao is not None else None
+                res["schedule"] = [e[0] for e in sched.trace]
+            finally:
+                sched.shutdown()
+        cj = {"what": "first-use", "progs": progs, "seed": seed, "schedule": res.get("schedule", [])}
+        posted = sorted(1000 * i + j for i, p in enumerate(progs) for j in range(len(p)))
+        run.count("first use of a fresh object's queue by %d posters and its own thread (bytecode level)" % len(progs))
+        run.traces_validated += 1
+        posters_done = all(v for k, v in res.get("finished", {}).items() if k.startswith("P") or k == "K0")
+        if res.get("errors"):
+            run.violate("%s/thread-error" % focus, "first use of the queue: %s" % res["errors"][:2], cj)
+        elif res.get("outcome") == "quiescent" and not posters_done:
+            run.violate("C05/post-never-returns", "first use of a fresh object's queue: a post never returned", cj)
+        elif res.get("outcome") == "quiescent" and (sorted(handled) != posted or res.get("pending")):
+            run.violate("%s/not-quiescent" % focus, "first use of a fresh object's queue (%s): all posts returned and no thread can run, but the "
+                        "events handled are %s of %s and %s event(s) are still queued" % (progs, sorted(handled), posted, res.get("pending")), cj)
+        run.case(cj, nontrivial=True)
+
+
 def explore_posters_only(run, focus, n):
     """oracle-only: several threads post to an active object's queue that nobody consumes (the object is not started), at and
     around capacity: every post returns (never blocks), the queue never exceeds its capacity, one token per pending event"""
@@ -604,6 +666,9 @@ def bounded_preemption_search(run, focus, budget_s=240, max_preempts=2):
 
 def replay(case):
     cc = case.get("case", case)
+    if cc.get("what") == "first-use":
+        print("re-run with the recorded VERIF_SEED; posters", cc["progs"], "chooser seed", cc["seed"])
+        return 0
     if cc.get("what") == "fabric-stop":
         print("re-run with the recorded VERIF_SEED; scenario", cc["scenario"], "chooser seed", cc["seed"])
         return 0
